@@ -83,8 +83,10 @@ def handle (j : Json) : Except String Json := do
     let o := evaluate env f
     let goJ := fldD j "go"
     let preds ← if goJ.isNull then pure Json.null else do
-      let gr ← resultIn (← fld goJ "result")
-      pure (Json.mkObj [("wellformed", wellFormedB f gr.detail)])
+      -- a result that cannot even be read (the real code crashed or hung: empty reason) is not well-formed
+      match (do let gr ← resultIn (← fld goJ "result"); pure gr : Except String _) with
+      | .ok gr => pure (Json.mkObj [("wellformed", wellFormedB f gr.detail)])
+      | .error _ => pure (Json.mkObj [("wellformed", false)])
     return Json.mkObj [("out", obsOut o), ("pred", preds)]
   else if kind == "bucket" then
     let c ← Wire.ctx (← fld j "ctx")
